@@ -8,6 +8,7 @@
 //!   oracle.txt  `<op index>\t<class>\t<detail>` per oracle failure
 //!   dist.json   evaluations, distinct non-trivial cases, counters (input distribution), samples
 mod common;
+mod shapes;
 mod m_adapters;
 mod m_circle;
 mod m_color;
